@@ -93,6 +93,8 @@ def main(prop, tier, seed):
     if prop == 'C02':
         try: nested_reach(rep)
         except Exception: rep.error('C02 nested_reach: ' + traceback.format_exc()[-1500:])
+        from props import c02_fields
+        c02_fields.safe(rep)
     if prop == 'C10':
         from props import errpath
         errpath.safe(errpath.add_finders, rep, 'C10.errpath')
